@@ -26,7 +26,9 @@ Record vold := {
   d_ro : bool;
   d_dir : bool;             (* <root>/<h[0:3]> exists *)
   d_blk : option fk;        (* <root>/<h[0:3]>/<h> *)
-  d_tmp : option N          (* <root>/<h[0:3]>/tmp<h><random>: bytes written so far *)
+  d_tmp : option N;         (* <root>/<h[0:3]>/tmp<h><random>: bytes written so far *)
+  d_full : bool             (* IsFull(): a fresh <root>/full marker (or < MinFreeKilobytes free): WriteBlock
+                               returns FullError before its first filesystem step *)
 }.
 
 (* what the writer reads from the pipe *)
@@ -113,6 +115,21 @@ Fixpoint nth_writable (vs : list vold) (k : nat) (i : nat) : option nat :=
   | v :: r => if d_ro v then nth_writable r k (S i)
               else match k with O => Some i | S k' => nth_writable r k' (S i) end
   end.
+(* PutBlock: NextWritable().Put; when that volume answers FullError (no yield point: IsFull is not part
+   of the write path's steps), the fallback loop tries every writable volume in order: the full ones
+   answer FullError again, the first one that is not full gets the write.  None = all full: FullError *)
+Definition vol_full (vs : list vold) (i : nat) : bool :=
+  match nth_error vs i with Some v => d_full v | None => false end.
+Fixpoint first_free (vs : list vold) (i : nat) : option nat :=
+  match vs with
+  | [] => None
+  | v :: r => if d_ro v || d_full v then first_free r (S i) else Some i
+  end.
+Definition put_target (vs : list vold) (n : nat) : option nat :=
+  match nth_writable vs (Nat.modulo 1 n) 0 with
+  | Some i => if vol_full vs i then first_free vs 0 else Some i
+  | None => None
+  end.
 Definition nwritable (vs : list vold) : nat := List.length (filter (fun v => negb (d_ro v)) vs).
 
 (* the whole PUT (fresh handler: RRVolumeManager.counter = 0, so NextWritable is writable #(1 mod n)).
@@ -124,7 +141,7 @@ Definition put_prog (vs : list vold) (L : N) (src : source) : list (string * eff
     match src with CancelledIn nv => (compare_cut vs nv, false) | _ =>
     let '(t, ok) := compare_and_touch vs 0 in
     if ok then (t, true)
-    else match nth_writable vs (Nat.modulo 1 n) 0 with
+    else match put_target vs n with
          | Some i =>
            let ex := match nth_error vs i with Some v => match d_blk v with Some _ => true | None => false end | None => false end in
            let '(w, ok') := write_block i L src ex in (t ++ w, ok')
@@ -143,17 +160,17 @@ Fixpoint upd_nth (vs : list vold) (i : nat) (f : vold -> vold) : list vold :=
 Definition apply_eff (L : N) (e : eff) (vs : list vold) : list vold :=
   match e with
   | ENone | ETouch _ => vs
-  | EMkdir i => upd_nth vs i (fun v => {| d_ro := d_ro v; d_dir := true; d_blk := d_blk v; d_tmp := d_tmp v |})
-  | ECreate i => upd_nth vs i (fun v => {| d_ro := d_ro v; d_dir := d_dir v; d_blk := d_blk v; d_tmp := Some 0 |})
-  | EWrite i n => upd_nth vs i (fun v => {| d_ro := d_ro v; d_dir := d_dir v; d_blk := d_blk v; d_tmp := Some n |})
+  | EMkdir i => upd_nth vs i (fun v => {| d_ro := d_ro v; d_dir := true; d_blk := d_blk v; d_tmp := d_tmp v; d_full := d_full v |})
+  | ECreate i => upd_nth vs i (fun v => {| d_ro := d_ro v; d_dir := d_dir v; d_blk := d_blk v; d_tmp := Some 0; d_full := d_full v |})
+  | EWrite i n => upd_nth vs i (fun v => {| d_ro := d_ro v; d_dir := d_dir v; d_blk := d_blk v; d_tmp := Some n; d_full := d_full v |})
   | ERename i => upd_nth vs i (fun v =>
       {| d_ro := d_ro v; d_dir := d_dir v;
          d_blk := match d_tmp v with
                   | Some n => Some (if (n =? L)%N then KGood else KCorrupt n)    (* a short temp file would be a corrupt block *)
                   | None => d_blk v
                   end;
-         d_tmp := None |})
-  | ERemoveTmp i => upd_nth vs i (fun v => {| d_ro := d_ro v; d_dir := d_dir v; d_blk := d_blk v; d_tmp := None |})
+         d_tmp := None; d_full := d_full v |})
+  | ERemoveTmp i => upd_nth vs i (fun v => {| d_ro := d_ro v; d_dir := d_dir v; d_blk := d_blk v; d_tmp := None; d_full := d_full v |})
   end.
 
 Fixpoint apply_all (L : N) (es : list (string * eff)) (vs : list vold) : list vold :=
